@@ -142,14 +142,22 @@ def body_collection(cname, check=True):
     if r.status_class != "2xx":
         return (True, "mkcol-refused")
     r = mweb.call(app, "PROPFIND", "/user/calendars/", headers=[("Depth", "1")],
-                  xml=mweb.propfind_body("{DAV:}resourcetype"), prefix=prefix, wsgi=wsgi)
+                  xml=mweb.propfind_body("{DAV:}resourcetype", "{DAV:}add-member"), prefix=prefix, wsgi=wsgi)
     if r.kind != "multistatus":
         return (False, "no-multistatus")
     got = []
     for s in r.statuses:
         h = Wd.create_href(s.href).text
         pi = deref(h, prefix)
-        got.append(_names_of(app, pi) if pi is not None else None)
+        res = _names_of(app, pi) if pi is not None else None
+        got.append(res)
+        # hrefs inside property VALUES address the resource they were emitted for as well (add-member = ".")
+        am = mweb.prop_el(s, "{DAV:}add-member")
+        if am is not None:
+            for hel in am.iter("{DAV:}href"):
+                pj = deref(hel.text, prefix)
+                if pj is None or _names_of(app, pj) != res:
+                    return (False, "property-href")
     want = {("collection", "/user/calendars"), ("collection", "/user/calendars/cal"),
             ("collection", "/user/calendars/" + cname)}
     ok = None not in got and set(got) == want and len(got) == 3
